@@ -147,7 +147,7 @@ def handleShape (toks : List String) : Option String :=
           let pieces : List (Shape Rat) :=
             if dirs == "u" then decomposeDir 0 tolMult (fuelOf 0 S) S
             else if dirs == "v" then decomposeDir 1 tolMult (fuelOf 1 S) S
-            else (decomposeDir 0 tolMult (fuelOf 0 S) S).flatMap (fun T => decomposeDir 1 tolMult (fuelOf 1 T) T)
+            else decomposeUV tolMult S
           return " # ".intercalate (pieces.map showShape)
       | _ => none
   | _ => none
